@@ -547,45 +547,83 @@ def ir_spec(s, theta, filtered, out, radius):
     return NS(u_of=u_of, contrib=contrib, inside=inside, inrange=inrange, partial=lambda k: lift(reals.sigma(k, lambda a: Sym(contrib(a)))))
 
 
+def emit(ctx, name, goal, hyps=(), gen=(), kind="loop-body"):
+    """Obligation with an explicit, minimal hypothesis set.  Every hypothesis handed in is a fact of the current path
+    (precondition, parity, a definitional assumption, or the statement of an obligation emitted before it), so the
+    obligation is at least as strong as the one the engine would generate with the whole path condition.
+    `gen`: generalisation - sub-terms replaced by fresh constants in hypotheses and goal alike (validity of the
+    generalised formula implies validity of the instance); keeps the queries linear."""
+    from pyvc.path import Obligation
+
+    hs = list(V.PI_FACTS) + [lift(h) for h in hyps]
+    g = lift(goal)
+    if gen:
+        gen = [(a_, b_) for a_, b_ in gen]
+        hs = [z3.substitute(h, *gen) for h in hs]
+        g = z3.substitute(g, *gen)
+    where = ctx.frames[-1] if ctx.frames else ""
+    ctx.obligs.append(Obligation(name, hs, g, kind, where, {}))
+    return lift(goal)
+
+
+PS_IR = z3.Function("iradon_partial_sum", z3.IntSort(), z3.IntSort(), z3.IntSort(), z3.IntSort(), z3.RealSort())
+
+
 def ir_inv(s):
+    """Loop over the projection angles.  Invariant (at the arbitrary pixel PX, inside the reconstruction circle):
+        recon[b,y,x] == PS(k; b,y,x),   PS(0) = 0,  PS(k+1) = PS(k) + interp(filtered[b,k,:], x*cos(th_k) - y*sin(th_k) + N//2)
+    i.e. the partial sum of scikit-image's per-angle term.  The body obligations are emitted as a chain with explicit hypotheses."""
     ctx = s.ctx
+    if not s.circle:
+        # circle=False: only the structural postconditions are stated (see ASSUMPTIONS)
+        ctx.ghost["c07_ir_sq"] = dict(out=s.output_size, theta=s.theta, filtered=s.filtered)
+        return []
     par = "odd N" if ctx.entails(lift(s.N) % 2 == 1) else "even N"
-    circ = "circle" if s.circle else "square"
     sp = ir_spec(s, s.theta, s.filtered, s.output_size, s.radius)
-    ctx.ghost["c07_ir"] = dict(spec=sp, theta=s.theta, filtered=s.filtered, out=s.output_size, radius=s.radius, recon=s.recon)
+    ctx.ghost["c07_ir"] = dict(spec=sp, theta=s.theta, filtered=s.filtered, out=s.output_size, radius=s.radius)
     b, y, x = PX
     k = lift(s.k)
-    body_done = "proj" in s.__dict__ and "t_idx" in s.__dict__
-    out = []
-    # Sigma schema (definition of a finite sum): Sigma(0) = 0, Sigma(k+1) = Sigma(k) + term(k)
-    ctx.assume(sp.partial(z3.IntVal(0)) == 0)
-    if body_done:
-        kk = k - 1
-        ctx.assume(sp.partial(k) == sp.partial(kk) + sp.contrib(kk))
-        hyp = AND(sp.inrange, sp.inside)
-        z0 = z3.IntVal(0)
-        u_code = lift(s.t_idx.fn(z0, y, x))
-        w = lift(s.w.fn(z0, y, x))
-        N = lift(s.N)
-        ang = reals._real(s.theta.fn(kk)) * V.PI / 180
-        c_, s_ = reals.F["cos"](ang), reals.F["sin"](ang)
-        X, Y, r = z3.ToReal(x - lift(s.radius)), z3.ToReal(y - lift(s.radius)), z3.ToReal(lift(s.radius))
-        t = X * c_ - Y * s_
-        out += [
-            (f"detector-coordinate-is-x*cos-y*sin+N//2[{circ}]", implies(sp.inrange, u_code == sp.u_of(kk))),
-            (f"lagrange-identity", (X * c_ - Y * s_) * (X * c_ - Y * s_) + (X * s_ + Y * c_) * (X * s_ + Y * c_) == (X * X + Y * Y) * (c_ * c_ + s_ * s_)),
-        ]
-        if s.circle:
-            out += [
-                (f"|t|<=radius-inside-the-circle", implies(hyp, AND(t <= r, -r <= t))),
-                (f"detector-coordinate-in-[0,N-1]-inside-the-circle[{par}]", implies(hyp, AND(u_code >= 0, u_code <= z3.ToReal(N - 1)))),
-                (f"interpolation-weight-in-[0,1]-inside-the-circle[{par}]", implies(hyp, AND(w >= 0, w <= 1))),
-            ]
-        out.append((f"contribution-is-linear-interpolation-of-the-filtered-projection[{circ},{par}]",
-                    implies(hyp, lift(s.proj.fn(b, y, x)) == sp.contrib(kk))))
-    out.append((f"recon=partial-sum-of-interpolated-projections[{circ},{par}]",
-                implies(AND(sp.inrange, sp.inside), lift(s.recon.fn(b, y, x)) == sp.partial(k))))
-    return out
+    here = AND(sp.inrange, sp.inside)
+    ctx.assume(PS_IR(z3.IntVal(0), b, y, x) == 0)   # definition of the partial sum
+    if not ("proj" in s.__dict__ and "t_idx" in s.__dict__):
+        inv = implies(here, lift(s.recon.fn(b, y, x)) == PS_IR(k, b, y, x))
+        ctx.ghost["c07_ir_inv_k"] = inv
+        return [(f"recon=partial-sum-of-interpolated-projections[{par}]", inv)]
+    # ---- after the body (k = k0 + 1): chain of obligations about iteration kk = k - 1
+    kk = z3.simplify(k - 1)
+    lid = "iradon_torch@loop0:inv-preserved:"
+    N, r = lift(s.N), lift(s.radius)
+    base = [lift(s.B) >= 1, lift(s.A) >= 1, N >= 2, N % 2 == (1 if par == "odd N" else 0), sp.inrange, kk >= 0, kk < lift(s.A)]
+    z0 = z3.IntVal(0)
+    u_code = reals._real(s.t_idx.fn(z0, y, x))
+    u_spec = sp.u_of(kk)
+    w = reals._real(s.w.fn(z0, y, x))
+    ang = reals._real(s.theta.fn(kk)) * V.PI / 180
+    c_, s_ = reals.F["cos"](ang), reals.F["sin"](ang)
+    X, Y = z3.ToReal(x - r), z3.ToReal(y - r)
+    t = X * c_ - Y * s_
+    U, U2, T = R("U!gen"), R("U2!gen"), R("T!gen")
+    g_u = emit(ctx, lid + "detector-coordinate-is-x*cos-y*sin+N//2", u_code == u_spec, base)
+    g_r = emit(ctx, lid + "radius-is-N//2", r == N / 2, base)
+    o1 = emit(ctx, lid + f"rotation-axis+-radius-lies-within-the-detector[{par}]", AND(N / 2 + r <= N - 1, N / 2 - r >= 0), base + [g_r])
+    g_r0 = emit(ctx, lid + "radius>=0", r >= 0, base + [g_r])
+    Cc, Ss, Xg, Yg, Rg = R("cos!gen"), R("sin!gen"), I("X!gen"), I("Y!gen"), I("r!gen")
+    l1 = emit(ctx, lid + "|x*cos-y*sin|<=radius-inside-the-circle", implies(sp.inside, AND(t <= z3.ToReal(r), -z3.ToReal(r) <= t)),
+              [g_r0, c_ * c_ + s_ * s_ == 1],   # A4 instance sin^2+cos^2=1
+              gen=[(c_, Cc), (s_, Ss), (x - r, Xg), (y - r, Yg), (r, Rg)])
+    g_rng = emit(ctx, lid + f"detector-coordinate-in-[0,N-1]-inside-the-circle[{par}]",
+                 implies(sp.inside, AND(u_spec >= 0, u_spec <= z3.ToReal(N - 1))), base + [o1, l1], gen=[(t, T)])
+    facts = base + [g_u, g_rng]
+    emit(ctx, lid + f"interpolation-weight-in-[0,1]-inside-the-circle[{par}]", implies(sp.inside, AND(w >= 0, w <= 1)), facts, gen=[(u_code, U), (u_spec, U2)])
+    pj, cn = reals._real(s.proj.fn(b, y, x)), sp.contrib(kk)
+    g_lin = emit(ctx, lid + f"contribution-is-linear-interpolation-of-the-filtered-projection[{par}]", implies(sp.inside, pj == cn), facts,
+                 gen=[(u_code, U), (u_spec, U2)])
+    Pj, Cn = R("proj!gen"), R("contrib!gen")
+    unfold = PS_IR(k, b, y, x) == PS_IR(kk, b, y, x) + cn           # definition of the partial sum
+    emit(ctx, lid + f"recon=partial-sum-of-interpolated-projections[{par}]",
+         implies(here, lift(s.recon.fn(b, y, x)) == PS_IR(k, b, y, x)),
+         base + [g_lin, unfold, ctx.ghost["c07_ir_inv_k"]], gen=[(pj, Pj), (cn, Cn)])
+    return []
 
 
 def _ispow2(p):
@@ -601,9 +639,13 @@ def ir_ensures(s):
     par = s.par
     circ = "circle" if s.circle else "square"
     out = []
-    if g is None or not isinstance(res, SymArr):
-        return [("loop-reached", False)]
-    sp, outsz = g["spec"], g["out"]
+    if not isinstance(res, SymArr):
+        return [("returns-a-tensor", False)]
+    if g is None:
+        if s.circle:
+            return [("loop-reached", False)]
+        g = ctx.ghost.get("c07_ir_sq") or {}
+    sp, outsz = g.get("spec"), g["out"]
     b, y, x = PX
     N, A, B = lift(s.N), lift(s.A), lift(s.B)
     single = ctx.entails(B == 1)
@@ -634,18 +676,13 @@ def ir_ensures(s):
         fsrc = log[1]["src"].prov["factor"]
         out.append(("filter-built-for-the-padded-size", AND(lift(S(fsrc.shape[1])) == P, fsrc.ndim == 2)))
         out.append(("filtered-projection-is-the-first-N-samples", lift(S(g["filtered"].shape[2])) == N))
-    # value
-    idx = (y, x) if res.ndim == 2 else (b, y, x)
-    val = lift(res.fn(*idx))
-    if res.ndim == 2:
-        val = z3.substitute(val, (b, z3.IntVal(0)))
-    spec_val = z3.If(sp.inside, V.PI / (2 * z3.ToReal(A)) * sp.partial(A), z3.RealVal(0))
-    if res.ndim == 2:
-        spec_val = z3.substitute(spec_val, (b, z3.IntVal(0)))
-        rng = z3.substitute(sp.inrange, (b, z3.IntVal(0)))
-    else:
-        rng = sp.inrange
-    out.append((f"result=pi/(2A)*sum_a-interp(filtered[b,a,:],x*cos-y*sin+N//2)-inside-the-circle,-0-outside[{circ},{par}]", implies(rng, val == spec_val)))
+    # value (circle mode): pi/(2A) * sum over the angles of scikit-image's interpolated term, zero outside the circle
+    if s.circle:
+        idx = (y, x) if res.ndim == 2 else (b, y, x)
+        val = lift(res.fn(*idx))
+        spec_val = z3.If(sp.inside, V.PI / (2 * z3.ToReal(A)) * PS_IR(A, b, y, x), z3.RealVal(0))
+        rng = AND(sp.inrange, b == 0) if res.ndim == 2 else sp.inrange
+        out.append((f"result=pi/(2A)*sum_a-interp(filtered[b,a,:],x*cos-y*sin+N//2)-inside-the-circle,-0-outside[{par}]", implies(rng, val == spec_val)))
     if s.theta_none:
         i = I("i")
         th = g["theta"]
@@ -683,7 +720,184 @@ C_IRADON = Contract(
     concretize=ir_conc, rt=rt_iradon, rt_family=fam_iradon_ok,
 )
 
-CONTRACTS = [C_FILTER, C_IRADON]
+
+# ----------------------------------------------------------------------------------------------------------------------
+# radon_torch
+# ----------------------------------------------------------------------------------------------------------------------
+PXR = (I("b!px"), I("a!px"), I("j!px"))   # arbitrary sinogram entry: image b, angle index a, detector pixel j
+ROW = I("i!row")                          # arbitrary row of the rotated sampling grid
+
+
+def rd_setup(ctx):
+    s = _sizes(ctx, NS())
+    del s.A
+    s.images = fresh_tensor(ctx, "img", (s.B, s.N, s.N))
+    s.T = ctx.fresh("T", "int")
+    s.theta = fresh_tensor(ctx, "theta", (s.T,))
+    s.device = None
+    return s
+
+
+def rd_requires(s):
+    return [("B>=1", lift(s.B) >= 1), ("N>=2", lift(s.N) >= 2), ("len(theta)>=0", lift(s.T) >= 0)]
+
+
+def masked_pixel(images, N):
+    """Element function of the disc-masked image (the property's reference input): image * [ (c-N//2)^2 + (r-N//2)^2 <= (N//2)^2 ]."""
+    N = lift(N)
+    cen = N / 2
+
+    def pix(b, r, c):
+        return reals._real(images.fn(b, r, c)) * z3.If((c - cen) * (c - cen) + (r - cen) * (r - cen) <= cen * cen, z3.RealVal(1), z3.RealVal(0))
+
+    return pix
+
+
+def sk_point(N, ang_deg, r, j):
+    """scikit-image's radon: output pixel (row r, column j) of `warp(image, R)` samples the input at
+       x = c + cos*(j-c) + sin*(r-c),  y = c - sin*(j-c) + cos*(r-c),   c = N//2   (checked against the real matrix by `spec-conformance`)."""
+    N = lift(N)
+    cen = z3.ToReal(N / 2)
+    ang = reals._real(ang_deg) * V.PI / 180
+    cs, sn = reals.F["cos"](ang), reals.F["sin"](ang)
+    J, Rr = z3.ToReal(j) - cen, z3.ToReal(r) - cen
+    return cen + cs * J + sn * Rr, cen - sn * J + cs * Rr
+
+
+def rd_spec_sum(s_images, N, theta, b, a, j):
+    """Reference sinogram entry: sum over the rows r of the rotated image of the bilinear, zero-padded sample (skimage warp order=1, cval=0)."""
+    pix = masked_pixel(s_images, N)
+
+    def summand(r):
+        xs, ys = sk_point(N, theta.fn(a), r, j)
+        return M7.bilinear_zero(lambda rr, cc: pix(b, rr, cc), N, N, xs, ys)
+
+    return lift(reals.sigma(N, summand)), summand
+
+
+def rd_inv(s):
+    ctx = s.ctx
+    par = "odd N" if ctx.entails(lift(s.N) % 2 == 1) else "even N"
+    b, a, j = PXR
+    k = lift(s.k)
+    N, B, A = lift(s.N), lift(s.B), lift(s.N_angles)
+    src = ctx.ghost["c07_rd_images"]          # the caller's tensor (the local `images` is rebound to the masked clone)
+    inrange = AND(_rng(b, B), _rng(j, N), a >= 0)
+    spec_a, _ = rd_spec_sum(src, N, s.theta, b, a, j)
+    ctx.ghost["c07_rd"] = dict(inrange=inrange, spec=spec_a, theta=s.theta)
+    if "projection" not in s.__dict__:
+        inv = implies(AND(inrange, a < k), lift(s.radon_images.fn(b, a, j)) == spec_a)
+        ctx.ghost["c07_rd_inv_k"] = inv
+        return [(f"rows-done-equal-the-reference-sum", inv)]
+    # ---- after the body: chain of obligations about iteration kk = k - 1
+    kk = z3.simplify(k - 1)
+    lid = "radon_torch@loop0:inv-preserved:"
+    i = ROW
+    base = [B >= 1, N >= 2, N % 2 == (1 if par == "odd N" else 0), _rng(b, B), _rng(j, N), _rng(i, N), kk >= 0, kk < A]
+    gs = M7.gs_log(ctx)
+    if len(gs) != 1:
+        emit(ctx, lid + "exactly-one-grid_sample-call-per-angle", False, base)
+        return []
+    g = gs[0]
+    z0, z1 = z3.IntVal(0), z3.IntVal(1)
+    xpix, ypix = lift(g["xpix"](b, i, j)), lift(g["ypix"](b, i, j))
+    cx, cy = reals._real(s.coords_rot.fn(b, i, j, z0)), reals._real(s.coords_rot.fn(b, i, j, z1))
+    Cx, Cy, D = R("cx!gen"), R("cy!gen"), R("Nm1!gen")
+    emit(ctx, lid + "grid_sample-input-and-grid-are-[B,1,N,N]-and-[B,N,N,2]",
+         AND(g["input"].ndim == 4, g["grid"].ndim == 4, *[lift(S(d)) == e for d, e in zip(g["input"].shape, (B, z1, N, N))],
+             *[lift(S(d)) == e for d, e in zip(g["grid"].shape, (B, N, N, z3.IntVal(2)))]), base)
+    g_norm = emit(ctx, lid + "grid-normalisation-2x/(N-1)-1-un-normalises-to-x-(align_corners=True)", AND(xpix == cx, ypix == cy),
+                  [z3.ToReal(N - 1) >= 1], gen=[(cx, Cx), (cy, Cy), (z3.ToReal(N - 1), D)])
+    o2 = emit(ctx, lid + f"row-reflection-about-the-rotation-centre-maps-[0,N)-onto-itself:2*(N//2)=N-1[{par}]", 2 * (N / 2) == N - 1, base)
+    xs, ys = sk_point(N, s.theta.fn(kk), N - 1 - i, j)
+    g_geo = emit(ctx, lid + "sample-point-of-(row-i,column-j)=skimage's-sample-point-of-(row-N-1-i,column-j)", AND(cx == xs, cy == ys), base + [o2])
+    pix = masked_pixel(src, N)
+    rr, cc = I("r!pix"), I("c!pix")
+    H_, W_ = g["input"].shape[2], g["input"].shape[3]
+    shp = AND(lift(S(H_)) == N, lift(S(W_)) == N)   # proved just above
+    code_read = lambda r_, c_: M7.guarded_pixel(lambda r2, c2: g["input"].fn(b, z0, r2, c2), H_, W_, r_, c_)   # noqa: E731
+    spec_read = lambda r_, c_: M7.guarded_pixel(lambda r2, c2: pix(b, r2, c2), N, N, r_, c_)                  # noqa: E731
+    g_in = emit(ctx, lid + "sampled-image-is-the-disc-masked-input-(zero-outside-the-frame)", code_read(rr, cc) == spec_read(rr, cc), base + [shp])
+    # summand(i) of the code == summand(N-1-i) of the reference
+    _, summand = rd_spec_sum(src, N, s.theta, b, kk, j)
+    code_val = reals._real(g["out"].fn(b, z0, i, j))
+    via_spec_pixels = lift(M7.bilinear_zero(lambda r_, c_: pix(b, r_, c_), N, N, xpix, ypix))
+    Xp, Yp = R("xpix!gen"), R("ypix!gen")
+    y0_, x0_ = z3.ToInt(ypix), z3.ToInt(xpix)
+    corners = [(ry, cx_) for ry in (y0_, y0_ + 1) for cx_ in (x0_, x0_ + 1)]
+    inst = [z3.substitute(g_in, (rr, ry), (cc, cx_)) for ry, cx_ in corners]        # g_in holds for arbitrary integers (r, c)
+    gen_reads = [(code_read(ry, cx_), R(f"code_read{q}!gen")) for q, (ry, cx_) in enumerate(corners)] + \
+                [(spec_read(ry, cx_), R(f"spec_read{q}!gen")) for q, (ry, cx_) in enumerate(corners)]
+    g_s1 = emit(ctx, lid + "sampled-value=bilinear-zero-padded-sample-of-the-masked-image", code_val == via_spec_pixels, inst, gen=gen_reads)
+    Xs, Ys = R("xs!gen"), R("ys!gen")
+    g_s2 = emit(ctx, lid + "code-summand(i)=reference-summand(N-1-i)", code_val == lift(summand(N - 1 - i)),
+                base + [g_s1, g_norm, g_geo], gen=[(xpix, Xp), (ypix, Yp), (cx, Cx), (cy, Cy), (xs, Xs), (ys, Ys)])
+    # the same reduction applied to the tensor returned by grid_sample: sum over axis 1 (the rows i) of sampled[b, 0, i, j]
+    code_sum = reals._real(g["out"].squeeze(1).sum(dim=1).fn(b, j))
+    g_sum = emit(ctx, lid + "projection=sum-over-the-rows-of-the-sampled-grid", reals._real(s.projection.fn(b, j)) == code_sum, base)
+    spec_k, _ = rd_spec_sum(src, N, s.theta, b, kk, j)
+    # T2 (trusted Sigma re-indexing): sum_{i<N} f(i) = sum_{r<N} g(r) when f(i) = g(N-1-i) for every 0 <= i < N  (premise: the obligation above)
+    reindex = code_sum == spec_k
+    emit(ctx, lid + f"rows-done-equal-the-reference-sum",
+         implies(AND(ctx.ghost["c07_rd"]["inrange"], a < k), lift(s.radon_images.fn(b, a, j)) == spec_a),
+         base + [g_sum, reindex, ctx.ghost["c07_rd_inv_k"], implies(a == kk, spec_a == spec_k)])
+    return []
+
+
+def rd_ensures(s):
+    if s.mode != "verify":
+        return []
+    ctx = s.ctx
+    res = s.result
+    g = ctx.ghost.get("c07_rd")
+    if not isinstance(res, SymArr) or g is None:
+        return [("returns-a-tensor-after-the-angle-loop", False)]
+    b, a, j = PXR
+    N, B, T = lift(s.N), lift(s.B), lift(s.T)
+    single = ctx.entails(B == 1)
+    exp_nd = 2 if single else 3
+    out = [("result-shape-[B,A,N]-(batch-axis-dropped-for-B=1)",
+            AND(res.ndim == exp_nd, *([lift(S(res.shape[-2])) == T, lift(S(res.shape[-1])) == N] if res.ndim == exp_nd else []),
+                *([lift(S(res.shape[0])) == B] if res.ndim == 3 and exp_nd == 3 else [])))]
+    if res.ndim != exp_nd:
+        return out
+    idx = (a, j) if res.ndim == 2 else (b, a, j)
+    rng = AND(g["inrange"], a < T, *([b == 0] if res.ndim == 2 else []))
+    out.append((f"sinogram[b,a,j]=sum_r-bilinear(masked-image_b;skimage-sample-point(theta_a,r,j))[{s.par}]", implies(rng, reals._real(res.fn(*idx)) == g["spec"])))
+    out.append(("input-images-not-modified", s.images.writes == 0))
+    return out
+
+
+def rd_setup2(ctx):
+    s = rd_setup(ctx)
+    ctx.ghost["c07_rd_images"] = s.images
+    return s
+
+
+def rd_conc(ev):
+    m, T, B = ev("m"), ev("T"), ev("B")
+    odd = bool(ev("N_is_odd", True))
+    N = None if m is None else 2 * m + (1 if odd else 0)
+    if N is None or not 2 <= N <= 33:
+        N = 9 if odd else 8
+    T = T if (T is not None and 1 <= T <= 6) else 3
+    B = B if (B is not None and 1 <= B <= 3) else 2
+    return dict(N=N, B=B, theta=[round(11.0 + 160.0 * q / T, 3) for q in range(T)], kinds=["random", "delta", "smooth"])
+
+
+def fam_radon_ok():
+    for N in (3, 5, 9, 15):
+        for th in ([0.0], [33.0, 90.0], [7.5, 45.0, 120.0, 180.0]):
+            yield dict(N=N, B=2, theta=th, kinds=["random", "delta"])
+
+
+C_RADON = Contract(
+    f"{RAD}:radon_torch", setup=rd_setup2, requires=rd_requires, ensures=rd_ensures,
+    loops={0: LoopSpec(inv=rd_inv)},
+    concretize=rd_conc, rt=rt_radon, rt_family=fam_radon_ok,
+)
+
+CONTRACTS = [C_FILTER, C_IRADON, C_RADON]
 LEMMAS = []
 BOUNDED = []
 TRUSTED = []
